@@ -154,7 +154,14 @@ func genHistory(t *Tape, k *Knobs, m mix, n int) []Step {
 				kv = append(kv, "aud", a)
 			}
 			if t.Chance(m.pkce) {
-				kv = append(kv, "pkce", "S256")
+				switch {
+				case t.Chance(m.pkceBad / 4):
+					kv = append(kv, "pkce", t.Pick([]string{"S256:malformed", "plain:malformed"}))
+				case t.Chance(m.pkceBad / 3):
+					kv = append(kv, "pkce", t.Pick([]string{"plain", "plain-implicit", "bogus"}))
+				default:
+					kv = append(kv, "pkce", "S256")
+				}
 			}
 			if t.Chance(15) {
 				kv = append(kv, "redirect", "reg:1")
